@@ -75,8 +75,22 @@ class Bench:
             self.reqs[c] = json.dumps(req).encode()
         self.steps = {c: self._dry(c) for c in (reversed(list(self.reqs)) if reverse else self.reqs)}
 
-    def reset(self):
+    def reset(self, heal=True):
         from ..transport import install
+        if not heal:
+            # long runs: the manager is left to repair the link itself on the next request
+            install(self.world)
+            d = self.world.device
+            d.mode = MODE_SIGNER
+            d.sign = None
+            d.blk = None
+            d.exit_modes = []
+            d.next_signature = None
+            d.block_policy = FaithfulBlockPolicy()
+            self.world.faults = {}
+            self.world.fault_hook = None
+            del self.world.log[:]
+            return
         install(self.world)     # getDongle is patched globally: point it at this bench's world
         d = self.world.device
         d.mode = MODE_SIGNER
@@ -102,8 +116,8 @@ class Bench:
             self.proto.hsm2dongle.connect()
         del self.world.log[:]
 
-    def prepare(self, c):
-        self.reset()
+    def prepare(self, c, heal=True):
+        self.reset(heal)
         if c.endswith("@uihb"):
             from ..simdev import MODE_UIHB
             self.world.device.mode = MODE_UIHB
@@ -115,9 +129,13 @@ class Bench:
         # produced and judged with the others: kind "none" allows only code 0)
         return [step_kind(c, e["apdu"]) for e in self.world.log if e["ev"] == "apdu"]
 
-    def run(self, c, idx, fault):
-        self.prepare(c)
-        if fault is not None:
+    def run(self, c, idx, fault, heal=True):
+        self.prepare(c, heal)
+        if fault is not None and heal:
+            self.world.faults = {idx: fault}
+        elif fault is not None:
+            # (in a long run the faulted request never has a repair pending: healthy requests come in between)
+            self.world.reset_counters()
             self.world.faults = {idx: fault}
         o = mgr.handle_line(self.proto, self.reqs[c])
         rep = o.reply()
@@ -164,6 +182,32 @@ def work(task):
     for x in out:
         x["plat"] = plat
     return (version, c, idx), out
+
+
+def long_run_cells(n_errors):
+    """One fresh manager left to itself: link errors at varying exchanges, each followed by healthy requests that
+    the manager must repair the link for and answer with the device's success - dozens of times over."""
+    b = Bench(2)
+    rng = random.Random("c04:long:%d" % n_errors)
+    names = [c for c in b.reqs if "@" not in c and b.steps.get(c)]
+    out = []
+    for k in range(n_errors):
+        c = names[k % len(names)]
+        idx = rng.randrange(len(b.steps[c]))
+        if b.steps[c][idx] == "exit":
+            idx = 0
+        kind = rng.choice(["read", "write"])
+        x = cell(2, c, b.steps[c][idx], kind, 0, b.run(c, idx, (kind,), heal=False))
+        x["long"] = "error#%d" % (k + 1)
+        out.append(x)
+        for j in range(2):
+            c2 = names[(k + 1 + j) % len(names)]
+            y = cell(2, c2, "all", "none", 0, b.run(c2, 0, None, heal=False))
+            y["long"] = "after-error#%d" % (k + 1)
+            out.append(y)
+    for x in out:
+        x["plat"] = "long"
+    return out
 
 
 def success_cells(version):
@@ -285,6 +329,9 @@ def run(ctx):
         for t in tasks:
             cells.extend(work(t)[1])
     cells.extend(success_cells(2))
+    long_cells = long_run_cells(ctx.pick(70, 400))
+    cells.extend(long_cells)
+    res.coverage["long_run_link_errors"] = ctx.pick(70, 400)
     cells.extend(success_cells(1))
     res.coverage["cells_executed"] = len(cells)
     res.coverage["distinct_cell_classes"] = len({(c["v1"], c["cmd"], c["step"], c["kind"]) for c in cells})
